@@ -396,6 +396,11 @@ for n, w in (("c14_bc_two_sender_drops", "broadcast N=1"), ("c14_mp_two_sender_d
       w + ": a stream task is parked on the empty, lapped queue; the last TWO sender handles are dropped concurrently: the whole drop of tx1 runs at the k-th shared-memory operation of the drop of tx0, for every k = 1..10 (forced-site loop; the witness shows that 10 is more than the drop has); the parked task must have been notified (otherwise the end of the stream is never reported)",
       "sequential set-up, 10 forced sites, nothing else symbolic", rules=FUTRULES + [(r' @ src/scen_fut', 12)],
       optional_covers=["the task parked", "an operation ran at a preemption point", "the sink task was polled again while the stream was being removed", "the parked sink task was notified by the removal"])
+for n, w in (("c14_bc_sender_drop_repoll", "broadcast N=1"), ("c14_mp_sender_drop_repoll", "mpmc N=2")):
+    H(n, FU, "C14", ["C14", "C07", "C15"], "quick",
+      w + ": a stream task is parked on the empty, lapped queue; the LAST sender handle is dropped and at the k-th shared-memory operation of that drop, for every k = 1..10 (forced-site loop), a prompt executor re-polls the task if it has been notified by then; the task's last poll must have reported the end of the stream or the task must have been notified after it",
+      "sequential set-up, 10 forced sites, nothing else symbolic", rules=FUTRULES + [(r' @ src/scen_fut', 12)],
+      optional_covers=["the task parked", "an operation ran at a preemption point", "the sink task was polled again while the stream was being removed", "the parked sink task was notified by the removal", "the task was polled again inside the drop of the last sender"])
 for n, w, t in (("c15_bc_hist", "broadcast N=1 spins(0,0)", "quick"), ("c15_mp_hist", "mpmc N=2 spins(0,0)", "quick"),
                 ("c15_bc10_hist", "broadcast N=2 spins(1,0)", "thorough")):
     H(n, FU, "C15", ["C15", "C09"], t, "every sub-sequence of the 10-call skeleton start_send start_send try_recv start_send try_send poll_complete poll poll drop_tx poll (after a concrete warm-up that fills the ring, parks once and drains) inside a task vs the model: " + w,
@@ -506,6 +511,12 @@ _opt("c09_bc_a4", "the history wrapped the ring", "the history hit Full")
 H("c08_mp_blk00_twodrops_lap", W, "C08", ["C08", "C07", "C12"], "thorough",
   "mpmc N=1 BlockingWait(0,0), lapped ring: blocked recv while the last two sender handles are dropped, nesting depth 2 (one drop preempted everywhere by the other, both inside the waiter's wait)",
   "depth 2, budget 2", rules=WRULES, timeout=3000)
+for _k in range(1, 17):
+    _n = "c16_wq_drop_f%02d" % _k
+    H(_n, M, "C16", ["C16", "C11"], "thorough",
+      "whole queue, REAL memory manager, forced-site mode: at the %d-th window site (stream-list pointer access, lock or allocation call) of the drop of a stream's last handle ALL of add_stream, rx1.try_recv, tx0.try_send, drop(new stream) run, in the order that completes a reclamation cycle inside the window; CBMC pointer checks are the oracle" % _k,
+      "19 pre-loaded retirements, forced site %d, 4 ops at that site, payloads symbolic, everything else concrete" % _k, rules=MEMRULES, fp_restrict=FP, builtin_oracle=True, unwind=6, mem_gb=24, teardown=True, timeout=1500)
+    _opt(_n, "three operations ran inside the removal", "a reclamation cycle freed the pre-loaded batch", "not in forced-site mode, or the forced site lies past the end of the outer operation")
 _opt("c16_protocol_seq", "an operation ran at a preemption point")
 _opt("c16_wq_drop_seq", "three operations ran inside the removal", "a reclamation cycle freed the pre-loaded batch")
 _opt("c08_mp_blk00_twodrops_lap", "a waiter was legitimately left blocked", "the blocked receiver returned a value")
@@ -514,6 +525,9 @@ for n, w in (("c17_churn_r3_nolag", "every handle announces in every round"), ("
     H(n, M, "C17", ["C17", "C16"], "quick",
       "REAL MemoryManager, 3 rounds of 21 retirements, " + w + "; conservation oracle: retired == freed + pending after every round, at most two batches pending at the end",
       "64 retirements, 2 tokens, sequential", rules=MEMRULES + [(r' @ src/scen_mem', 30)], fp_restrict=FP, builtin_oracle=True, unwind=6, mem_gb=24)
+H("c17_churn_tokens_r3", M, "C17", ["C17", "C16"], "quick",
+  "REAL MemoryManager, handle churn as the queue performs it: 3 rounds of 21 get_token/remove_token cycles (a cloned and dropped handle) while two fixed handles announce every epoch; conservation oracle after every round, at most two batches of retired tokens still held at the end",
+  "64 token cycles, 2 fixed tokens, sequential", rules=MEMRULES + [(r' @ src/scen_mem', 30)], fp_restrict=FP, builtin_oracle=True, unwind=6, mem_gb=24)
 for n, w in (("c15_bc_hist6", "broadcast N=1, first 6 steps"), ("c15_mp_hist6", "mpmc N=2, first 6 steps"), ("c15_mp_hist8", "mpmc N=1, first 8 steps (two polls that may park)")):
     H(n, FU, "C15", ["C15", "C09"], "quick",
       "skeleton start_send start_send try_recv start_send try_send poll_complete [poll poll] after the concrete warm-up, every call optional, inside a task, vs the model: " + w,
@@ -559,10 +573,10 @@ QUICK = {
     "C11": ["c11_bc_drop_last_o1", "c11_bc_unsub_last_o1", "c11_bc_unsub_nonlast_o1", "c11_bc_bothhandles_sitesq", "c11_bc_droprace_sitesq", "c11_bc_addrace_sitesq"],
     "C12": ["c12_mp_consumers2a", "c12_mp_consumers2b", "c12_mp_senders2a", "c12_mp_senders2b", "c12_bc_sibdrop_forced"],
     "C13": ["c13_mp_one", "c13_mp_two_handles", "c13_bc_two_streams", "c13_bc_two_handles", "c13_bc_two_streams_rx0first"],
-    "C14": ["c14_mp_send_vs_tryrecv", "c14_bc_drop_stream_repoll", "c14s_mp_poll_o1_vs_send"],
+    "C14": ["c14_mp_send_vs_tryrecv", "c14_bc_drop_stream_repoll", "c14s_mp_poll_o1_vs_send", "c14_bc_sender_drop_repoll", "c14_mp_sender_drop_repoll"],
     "C15": ["c15_bc_hist6", "c15_mp_hist6", "c15_mp_hist8", "c15_mpfut_direct_recv", "c15_bcfut_direct_recv_drop", "c15_bc_fresh_poll"],
     "C16": ["c16_protocol_seq", "c16_add_vs_scan", "c16_remove_vs_scan"],
-    "C17": ["c17_teardown_mp", "c17_teardown_bc_stream", "c17_teardown_bc_clone", "c17_churn_r3_nolag", "c17_churn_r3_lag"],
+    "C17": ["c17_teardown_mp", "c17_teardown_bc_stream", "c17_teardown_bc_clone", "c17_churn_r3_nolag", "c17_churn_r3_lag", "c17_churn_tokens_r3"],
     "C18": ["c18_mp_frozen_recv", "c18_bc_frozen_send", "c18_mp_frozen_send_mw", "c18_bc_shared_inclone_mw"],
 }
 for _n, _h in HARNESSES.items():
